@@ -343,4 +343,129 @@ example : Inv exState (some exOld) := by
   have := inv_step inv_init (.load exOld ⟨true, false, 0, [], [0, 3], [0, 3]⟩)
   exact this
 
+/-! ### the default logger over histories -/
+
+theorem decodeAndRun_next (cid : Nat) (c : Cfg) (e : Env) (s : State) :
+    (decodeAndRun cid c e s).1.next = s.next := by
+  unfold decodeAndRun
+  split
+  · rfl
+  · have hf := (run_frame4 cid c e s).next
+    generalize run cid c e s = q at hf
+    obtain ⟨s1, o, r⟩ := q
+    simp only at hf
+    cases o <;> cases r <;>
+      first
+      | exact hf
+      | (show (unsyncedStop _ _).next = _; rw [(unsyncedStop_frame4 _ _).next]; exact hf)
+
+theorem changeTo_next (c : Cfg) (e : Env) (s : State) : (changeTo c e s).1.next = s.next := by
+  rcases changeTo_cases c e s with ⟨_, h⟩ | h | ⟨s1, hq, h⟩ | ⟨s1, r, _, hq, h⟩
+  · rw [h]
+  · rw [h]
+  · rw [h]; have := decodeAndRun_next s.next c e { s with raw := some c }; rw [hq] at this; exact this
+  · rw [h]; have := decodeAndRun_next s.next c e { s with raw := some c }; rw [hq] at this; exact this
+
+/-- the tail of changeConfig and the default logger, every outcome: accepted with `ok` ⇒ the new
+    configuration's; everything else (unchanged, every rejection) ⇒ untouched -/
+theorem changeTo_default_logger (c : Cfg) (e : Env) (s : State) :
+    (changeTo c e s).1.dlogger = if (changeTo c e s).2 = .ok then s.next + 1 else s.dlogger := by
+  by_cases hok : (changeTo c e s).2 = .ok
+  · rw [if_pos hok]; exact accepted_sets_default_logger s c e hok
+  · rw [if_neg hok]
+    by_cases hacc : (changeTo c e s).2.accepted = false
+    · exact default_logger_after_rejected s c e hacc
+    · rcases changeTo_cases c e s with ⟨_, h⟩ | h | ⟨s1, _, h⟩ | ⟨s1, r, hr, hq, h⟩
+      · rw [h]
+      · rw [h]
+      · rw [h] at hok; exact absurd rfl hok
+      · rw [h] at hacc
+        have : r.accepted = true := by cases hh : r.accepted; exact absurd hh hacc; rfl
+        exact absurd (decodeAndRun_accepted hq this) hr
+
+/-- **step_default_logger** (full strength): one operation of any kind moves the process default
+    logger exactly as the spec says — to the operation's own default log iff it installed a
+    configuration (answer `ok` to a load / PATCH / DELETE), not at all otherwise — and the
+    operation counter advances by one -/
+theorem step_default_logger (s : State) (op : Op) :
+    (step s op).1.dlogger = Spec.logger s.dlogger s.next op (step s op).2 ∧
+    (step s op).1.next = s.next + 1 := by
+  have hc : ∀ c e, (bump (changeTo c e s)).1.dlogger
+        = (if (bump (changeTo c e s)).2 = .ok then s.next + 1 else s.dlogger) ∧
+      (bump (changeTo c e s)).1.next = s.next + 1 := fun c e =>
+    ⟨changeTo_default_logger c e s, by show (changeTo c e s).1.next + 1 = _; rw [changeTo_next]⟩
+  cases op with
+  | load c e =>
+    show (bump (changeTo c e s)).1.dlogger = Spec.logger _ _ _ (bump (changeTo c e s)).2 ∧ _
+    simp only [Spec.logger, Spec.installs, true_and]
+    exact hc c e
+  | patch a e =>
+    unfold step
+    cases hraw : s.raw with
+    | none => exact ⟨rfl, rfl⟩
+    | some c =>
+      dsimp only
+      cases hrep : replaceApp a c.apps with
+      | none => exact ⟨rfl, rfl⟩
+      | some apps =>
+        dsimp only
+        simp only [Spec.logger, Spec.installs, true_and]
+        exact hc _ e
+  | del n e =>
+    unfold step
+    cases hraw : s.raw with
+    | none => exact ⟨rfl, rfl⟩
+    | some c =>
+      dsimp only
+      cases hrem : removeApp n c.apps with
+      | none => exact ⟨rfl, rfl⟩
+      | some apps =>
+        dsimp only
+        simp only [Spec.logger, Spec.installs, true_and]
+        exact hc _ e
+  | junk => exact ⟨rfl, rfl⟩
+  | validate c e =>
+    refine ⟨?_, ?_⟩
+    · show (validate c e s).1.dlogger = _
+      rw [validate_dlogger]; simp [Spec.logger, Spec.installs]
+    · show (validate c e s).1.next + 1 = _
+      rw [(validate_frame c e s).next]
+  | stop =>
+    refine ⟨?_, ?_⟩
+    · show (unsyncedStop s.cur s).dlogger = _
+      rw [unsyncedStop_dlogger]; simp [Spec.logger, Spec.installs]
+    · show (unsyncedStop s.cur s).next + 1 = _
+      rw [(unsyncedStop_frame4 _ _).next]
+
+/-- **history_default_logger** (full strength). For EVERY history of operations, with every fault
+    and every order at every step: the process default logger (caddy.Log()) is the default log of
+    the operation that installed the last accepted configuration — the initial one if no
+    configuration was ever accepted. (This is what the correspondence oracle checks on the real
+    code after every operation.) -/
+theorem history_default_logger (ops : List Op) :
+    (runOps State.init ops).dlogger
+      = Spec.loggerAfter 0 0 (ops.zip ((trace State.init ops).map (·.1))) := by
+  have gen : ∀ (ops : List Op) (s : State), (runOps s ops).dlogger
+      = Spec.loggerAfter s.dlogger s.next (ops.zip ((trace s ops).map (·.1))) := by
+    intro ops
+    induction ops with
+    | nil => intro s; rfl
+    | cons o os ih =>
+      intro s
+      obtain ⟨h1, h2⟩ := step_default_logger s o
+      show (runOps (step s o).1 os).dlogger
+        = Spec.loggerAfter (Spec.logger s.dlogger s.next o (step s o).2) (s.next + 1)
+            (os.zip ((trace (step s o).1 os).map (·.1)))
+      rw [ih (step s o).1, h1, h2]
+  exact gen ops State.init
+
+-- non-vacuity: load A (ok, operation 0), a load rejected at Start (1), a successful dry run (2), a malformed
+-- request (3), load B (ok, 4), "unchanged" (5), Stop (6): the logger is operation 4's
+example : let ops : List Op := [.load exOld ⟨true, false, 0, [], [0, 3], [0, 3]⟩, .load exNew exEnv,
+      .validate exNew exEnv, .junk, .load ⟨0, [], [⟨0, 5, 0, [2], []⟩], ⟨0, 0⟩⟩ exEnv,
+      .load ⟨0, [], [⟨0, 5, 0, [2], []⟩], ⟨0, 0⟩⟩ ⟨false, false, 0, [], [0], [0]⟩, .stop]
+    (trace State.init ops).map (·.1) = [.ok, .errStart, .ok, .errBody, .ok, .same, .ok] ∧
+    (runOps State.init ops).dlogger = 5 ∧
+    (runOps State.init (ops.take 4)).dlogger = 1 := by decide
+
 end CaddyModel.C01
